@@ -228,8 +228,11 @@ def stack_cmds(rng, h, n, tries=True, fail=False, big_align=True):
             cmds.append("cmp")
         elif r < 0.86:
             cmds.append("sh")
-        elif r < 0.92:
+        elif r < 0.90:
             cmds.append("d %d" % rng.randint(0, 40))
+        elif r < 0.93 and tries:
+            # composable release of own memory, possibly from a block the stack has left behind
+            cmds.append("td %d" % rng.randint(0, 40))
         elif r < 0.95:
             cmds.append("sweep")
         elif fail:
@@ -292,6 +295,8 @@ def iter_cmds(rng, h, n, tries=True):
             cmds.append("ni")
         elif r < 0.94:
             cmds.append("sweep")
+        elif r < 0.97 and tries:
+            cmds.append("td %d" % rng.randint(0, 20))
         else:
             cmds.append("d %d" % rng.randint(0, 20))
     return cmds
